@@ -13,7 +13,7 @@ use crate::util::Fnv;
 use crate::world::bucket;
 use crate::world_c::{Members, UnbondRec, WorldC, STAKE_DENOM};
 
-fn members_map(v: &[(String, u64)]) -> Members {
+pub(crate) fn members_map(v: &[(String, u64)]) -> Members {
     v.iter().cloned().collect()
 }
 
@@ -758,7 +758,7 @@ impl WorldC {
                     exp_claims[i].push((amt, rel));
                     match rel {
                         Expiration::AtHeight(h) => self.deadlines_h.push(h),
-                        Expiration::AtTime(t) => self.deadlines_t.push(t.seconds()),
+                        Expiration::AtTime(t) => self.deadlines_t.push(t.nanos()),
                         _ => {}
                     }
                     if committed {
